@@ -71,12 +71,12 @@ func init() {
 	reg("C04", d("verifC04a", "verifC04b", "verifC04c", "verifC04d", "verifC04e"), d("verifC04a", "verifC04b", "verifC04c", "verifC04d", "verifC04e", "verifT04a"),
 		d("go.uber.org/dig.findMissingDependencies", "go.uber.org/dig.shallowCheckDependencies", "go.uber.org/dig.newErrMissingTypes", "go.uber.org/dig.isFieldOptional", psBuild),
 		d("missing", "optional-zero", "optional-present", "invoke-ok"),
-		"(a) 2 ctors, <=2 scopes, optional fields; (b) chain of 3 ctors in one scope, every edge optional or required, 1 Invoke; (c) 2 ctors with Export over <=2 scopes; (d) 1 ctor, Invoke, 1 more ctor, the Invoke again (optional fields); (e) ctor, ctor, decorator with an extra dependency, ctor - each may return an error - below an optional consumer", "quick entries plus (T04a) 3 ctors, 2 scopes, optional, Export",
+		"(a) 2 ctors, <=2 scopes, optional fields; (b) chain of 3 ctors in one scope, every edge optional or required, 1 Invoke; (c) 2 ctors with Export over <=2 scopes; (d) 1 ctor, Invoke, 1 more ctor, the Invoke again (optional fields); (e) ctor, ctor, decorator with an extra dependency, ctor - each may return an error - below an optional consumer (assumed: all four accepted, the decorated key has a visible constructor, the decorator's own dependencies are not missing)", "quick entries plus (T04a) 3 ctors, 2 scopes, optional, Export",
 		stubs, uf)
-	reg("C05", d("verifC05u", "verifC05sa", "verifC05sb", "verifC05sc", "verifC05sd", "verifC05se", "verifC05sf"), d("verifC05u", "verifC05sa", "verifC05sb", "verifC05sc", "verifC05sd", "verifC05se", "verifC05sf", "verifT05a", "verifT05b"),
+	reg("C05", d("verifC05u", "verifC05sa", "verifC05sb", "verifC05sc", "verifC05sd", "verifC05se", "verifC05sf"), d("verifC05u", "verifC05sa", "verifC05sb", "verifC05sc", "verifC05sd", "verifC05se", "verifC05sf", "verifT05u", "verifT05a", "verifT05b"),
 		d(isAcyclic, "go.uber.org/dig/internal/graph.isAcyclic", "(*go.uber.org/dig.graphHolder).EdgesFrom", provide, invoke, "(*go.uber.org/dig.graphHolder).Rollback"),
 		d("acyclic", "cyclic", "cycle-len>=3", "cycle-rejected", "cycle-deferred", "invoke-on-cycle", "reentered", "invoke-on-static-cycle"),
-		"unit: every digraph with n<=4 nodes (symbolic adjacency matrix); system: (sa) 2 ctors with 1 param/1 result of symbolic type, Export, <=2 scopes; (sb) same with DeferAcyclicVerification and 2 Invokes; (sc) group and optional edges, defer free; (sd) 2 ctors over <=3 scopes of free shape (cycles visible only from a grandchild); (se) 2 registrations incl. <=1 decorator whose bodies may re-enter the container, defer free, <=2 scopes; (sf) DeferAcyclicVerification: 1 ctor, Invoke, 1 more ctor (optional / group edges), Invoke again", "quick entries plus (T05a) 3 ctors, Export, scopes created at any time; (T05b) defer free, <=3 scopes, group edges",
+		"unit: every digraph with n<=4 nodes (symbolic adjacency matrix); system: (sa) 2 ctors with 1 param/1 result of symbolic type, Export, <=2 scopes; (sb) same with DeferAcyclicVerification and 2 Invokes; (sc) group and optional edges, defer free; (sd) 2 ctors over <=3 scopes of free shape (cycles visible only from a grandchild); (se) 2 registrations incl. <=1 decorator whose bodies may re-enter the container, defer free, <=2 scopes; (sf) DeferAcyclicVerification: 1 ctor, Invoke, 1 more ctor (optional / group edges), Invoke again", "quick entries plus (T05u) the unit harness over every digraph with n<=5 nodes; (T05a) 3 ctors, Export, scopes created at any time; (T05b) defer free, <=3 scopes, group edges",
 		stubs, uf, "exceeding 600 frames / 2e7 steps counts as non-termination and is replayed natively")
 	props["C05"].FuelIsViolation = true
 	reg("C06", d("verifC06a", "verifC06b", "verifC06c", "verifC06d", "verifC06e"), d("verifC06a", "verifC06b", "verifC06c", "verifC06d", "verifC06e", "verifT06a", "verifT06b"),
@@ -87,7 +87,7 @@ func init() {
 	reg("C07", d("verifC07a", "verifC07b", "verifC07c", "verifC07d"), d("verifC07a", "verifC07b", "verifC07c", "verifC07d", "verifT07a"),
 		d(cnCall, dnCall, extract, invoke),
 		d("user-failure", "ctor-error", "panic-recovered", "panic-propagated", "retried", "decorated-arg"),
-		"(a) 2 ctors, each execution may succeed / return an error / panic, RecoverFromPanics free, 2 Invokes; (b) 2 registrations incl. <=1 decorator that may fail, 2 Invokes; (c) the same with the error result first or last in the signature; (d) ctor, ctor, decorator with an extra dependency, ctor below an optional consumer, each may return an error", "quick entries plus (T07a) 3 registrations incl. a decorator, all fault kinds",
+		"(a) 2 ctors, each execution may succeed / return an error / panic, RecoverFromPanics free, 2 Invokes; (b) 2 registrations incl. <=1 decorator that may fail, 2 Invokes; (c) the same with the error result first or last in the signature; (d) ctor, ctor, decorator with an extra dependency, ctor below an optional consumer, each may return an error (assumed: all four accepted, the decorated key has a visible constructor, the decorator's own dependencies are not missing)", "quick entries plus (T07a) 3 registrations incl. a decorator, all fault kinds",
 		stubs, uf)
 	reg("C08", d("verifC08a", "verifC08b"), d("verifC08a", "verifC08b", "verifT08a"),
 		d("(*go.uber.org/dig.Scope).Scope", "(*go.uber.org/dig.Scope).storesToRoot", provide, psBuild, "(*go.uber.org/dig.Scope).newGraphNode"),
